@@ -638,7 +638,7 @@ class C16(Property):
              'reproduces k; as_RateExpr gives value * mass-action product; every expression tree evaluates to its arithmetic meaning '
              'under math, numpy, sympy and with units; a named override replaces exactly that argument')
     props_module = 'ChemModel.Props.C16'
-    build_modules = ('ChemModel.Model.Expr', 'ChemModel.Gen.FnRateConst', 'ChemModel.Basic.Proto')
+    build_modules = ('ChemModel.Model.Expr', 'ChemModel.Gen.FnRateConst', 'ChemModel.Gen.RatesSrc', 'ChemModel.Basic.Proto')
     driver = 'ChemModel/Driver/C16.lean'
     n_quick, n_thorough = 1200, 20000
     float_tol = 1e-9
@@ -656,6 +656,21 @@ class C16(Property):
                    'a complex value (negative base, non-integer exponent) ends the evaluation in the model; Python continues with complex arithmetic, so a later exception of the real code is accepted there',
                    'unit-carrying evaluation is checked by the oracle only (quantities is third-party)',
                    'translator pyfn2lean + the two AST rewrites of tools/extract/rateconst.py (plain-number path of try/except AttributeError)')
+    clauses_without_theorem = (
+        'evaluation with unit-carrying quantities (chempy.units / quantities objects, to_unitless, Backend(), patched_numpy, `.simplified` of '
+        'unsimplified ratios): decided by the oracle only (units and ubackend templates); the theorem unit_scaling_arrhenius_rate covers the '
+        'change of units for MassAction(Arrhenius) as algebra on magnitudes, the other classes and the quantities library are not modelled',
+        'symbolic evaluation of Piecewise instances (sympy builds Piecewise(And(lo <= x, x <= up), ...)): oracle only (at and inside the '
+        'bounds); symbolic_then_substituted covers every tree without a Piecewise instance',
+        'math vs numpy as implementations of float arithmetic (same libm, numpy returning inf/nan where math raises): oracle only; the Float '
+        'instantiation of the model is never used in a theorem',
+        'ArrheniusParam(A, Ea)(T) / EyringParam(dH, dS)(T) dispatching to arrhenius_equation / eyring_equation, the constants= / units= paths '
+        '(R = constants.molar_gas_constant, ArrheniusParamWithUnits, EyringParamWithUnits) and Reaction(..., ParamSet).rate(vars): oracle only',
+        'closed formulas of Radiolytic, RampedTemp, SinTemp, Log10, Exp, EyringHS, GibbsEqConst, MassActionEq: their bodies in Model/Expr.call are '
+        'hand transcriptions tied to the source by the *_guard theorems (regenerated source text) and by the correspondence; no separate spec theorem',
+        'override of a defaulted or of a nested-expression argument (override_replaces_exactly is stated for stored numeric arguments)',
+        'linearised fits (fit_arrhenius_equation, fit_eyring_equation, _fit_linearized: numpy least squares): exploration only, not checked',
+    )
     anchors = (('chempy/util/_expr.py', 'Expr.__init__'), ('chempy/util/_expr.py', 'Expr.arg'), ('chempy/util/_expr.py', 'Expr.all_args'),
                ('chempy/util/_expr.py', 'Expr.all_params'), ('chempy/util/_expr.py', '_implicit_conversion'),
                ('chempy/util/_expr.py', 'Expr.__add__'), ('chempy/util/_expr.py', 'Expr.__sub__'), ('chempy/util/_expr.py', 'Expr.__mul__'),
@@ -1033,6 +1048,9 @@ class C16(Property):
         M = lambda q: self.meaning(q, vars_, rxn, be)
         if p['t'] == 'op' and p['o'] in ('mul', 'div'):
             a, b = p['a'], p['b']
+            for q in (a, b):
+                if q['t'] == 'num' and isinstance(q['v'], Fraction):
+                    raise Skip('bare Fraction operand')
             if self._is_ma(a):
                 ka, vb = self.coefficient(a, vars_, rxn, be), M(b)
                 if p['o'] == 'mul':
